@@ -504,7 +504,8 @@ func (d *directFS) resolveParents(name string) string {
 	}
 	abs := cn
 	if !filepath.IsAbs(abs) {
-		abs = "/" + abs
+		// relative names are handed to the base as they are
+		return cn
 	}
 	dir, base := filepath.Dir(abs), filepath.Base(abs)
 	wdir := dir
